@@ -92,6 +92,15 @@ func uuidSubjects(core.Tier) []any {
 			out = append(out, base[:i]+r+base[i+1:])
 		}
 		out = append(out, base[:i]+base[i+1:], base[:i]+"0"+base[i:], base[:i]+"-"+base[i:])
+		if i+1 < len(base) {
+			out = append(out, base[:i]+base[i+1:i+2]+base[i:i+1]+base[i+2:]) // neighbours swapped (a group boundary moves)
+		}
+		// double edits keep the length: an even number of stray dashes / digits in wrong places
+		for j := i + 1; j < len(base); j++ {
+			for _, r := range [][2]string{{"-", "-"}, {"0", "0"}, {"-", "0"}, {"0", "-"}} {
+				out = append(out, base[:i]+r[0]+base[i+1:j]+r[1]+base[j+1:])
+			}
+		}
 	}
 	return out
 }
@@ -283,6 +292,17 @@ func buildC20Configs() []c20cfg {
 	for _, p := range []any{math.NaN(), 1.5, 0.0} {
 		out = append(out, c20cfg{kind: spec.Slice, elem: f64Elem, test: spec.Test{Op: spec.TContains, Arg: p}, subjects: fSets, name: fmt.Sprintf("Slice(Float64).Contains(%v)", p)})
 	}
+	// time elements: a time.Time holds a pointer to its location; deep equality looks through it, so two separately built
+	// but identical zones make equal values (and the same instant in another zone does not)
+	tElem := &spec.Node{Kind: spec.Time}
+	zoneA := func() *time.Location { return time.FixedZone("A", 3600) }
+	tt := gen.BaseTime
+	tSets := func(core.Tier) []any {
+		return []any{[]time.Time{tt.In(zoneA())}, []time.Time{tt, tt.In(zoneA())}, []time.Time{tt.In(time.FixedZone("B", 3600))}, []time.Time{tt.UTC()}, []time.Time{}, []time.Time{tt.Add(time.Nanosecond).In(zoneA())}}
+	}
+	for _, p := range []any{tt.In(zoneA()), tt, tt.In(time.FixedZone("A", 7200))} {
+		out = append(out, c20cfg{kind: spec.Slice, elem: tElem, test: spec.Test{Op: spec.TContains, Arg: p}, subjects: tSets, name: fmt.Sprintf("Slice(Time).Contains(%s)", p.(time.Time).Format(time.RFC3339))})
+	}
 	// pointer elements: deep equality follows pointers
 	ptrElem := &spec.Node{Kind: spec.Ptr, Elem: &spec.Node{Kind: spec.Int}}
 	mk := func(vs ...int) []*int {
@@ -305,7 +325,7 @@ func (c20) Info(t core.Tier) core.Info {
 	return core.Info{
 		Level: "exploration",
 		Rule: fmt.Sprintf("%d single-test schemas (every built-in test of String, Int, Int32, Int64, Float32, Float64, Bool, Time, Slice with boundary parameters; Not() forms where the API offers them), each executed on its whole subject set in Parse and Validate: "+
-			"EXHAUSTIVE over all strings of length <= %d over the alphabet %q (plus all 256 single bytes for the character-class tests), all strings of length <= %d over the e-mail grammar alphabet plus 62/63/64/65-byte labels, ~400 single-edit UUID mutants, URLs labelled by construction, "+
+			"EXHAUSTIVE over all strings of length <= %d over the alphabet %q (plus all 256 single bytes for the character-class tests), all strings of length <= %d over the e-mail grammar alphabet plus 62/63/64/65-byte labels, ~400 single-edit and ~2500 double-edit UUID mutants, URLs labelled by construction, "+
 			"numbers at n-1/n/n+1/nextafter/min/max/NaN/Inf for every width, times at t +- 1ns in three zones, slice lengths 0..6 and Contains over small universes including deep-equal-but-different-type, NaN and pointer elements. "+
 			"oracle: issue present <=> independent predicate false (negated for Not()), with the documented code. one case = one schema with all its subjects. non-trivial: subject within one step of the parameter boundary, multi-byte, NaN or a deep-equality corner (every evaluated pair is counted; distinct by (test, subject, mode)).",
 			len(c20Configs), tierN(t, 3, 4), c20Alphabet, tierN(t, 5, 6)),
